@@ -163,9 +163,22 @@ func quietHeartbeat(cfg eio.ServerConfig) eio.ServerConfig {
 func newPollSession(spec limitSpec) (*pollSession, error) {
 	s := &pollSession{closed: make(chan closeInfo, 4)}
 	cfg := quietHeartbeat(spec.cfg)
+	// Only the session opened by this harness counts. While the server listens on a loopback port
+	// (real net/http cases) a stray client of some other process on this machine - e.g. a Socket.IO
+	// client of another test run reconnecting to a port number it used before - may open a session
+	// of its own on this server; its packets and its close say nothing about the case.
 	s.srv = eio.NewServer(func(sock eio.ServerSocket) *eio.Callbacks {
+		id := sock.ID()
+		mine := func() bool {
+			s.mu.Lock()
+			defer s.mu.Unlock()
+			return s.sid != "" && id == s.sid
+		}
 		return &eio.Callbacks{
 			OnPacket: func(packets ...*parser.Packet) {
+				if !mine() {
+					return
+				}
 				s.mu.Lock()
 				defer s.mu.Unlock()
 				for _, p := range packets {
@@ -175,6 +188,9 @@ func newPollSession(spec limitSpec) (*pollSession, error) {
 				}
 			},
 			OnClose: func(reason eio.Reason, err error) {
+				if !mine() {
+					return
+				}
 				select {
 				case s.closed <- closeInfo{string(reason), errString(err)}:
 				default:
@@ -199,7 +215,9 @@ func newPollSession(spec limitSpec) (*pollSession, error) {
 	if err != nil {
 		return nil, err
 	}
+	s.mu.Lock()
 	s.sid, s.announced = hr.SID, hr.MaxPayload
+	s.mu.Unlock()
 	return s, nil
 }
 
@@ -356,14 +374,18 @@ func runPollCase(c *ctx, pc pollCase, limIdx int, st *partStats) {
 	}
 	got := sess.delivered()
 	deliveredTested := false
-	for _, g := range got {
+	var oversize *gotMsg // a delivered message larger than the limit: the property itself
+	for i, g := range got {
 		if !g.barrier {
 			deliveredTested = true
+		}
+		if limit > 0 && g.wire > limit && oversize == nil {
+			oversize = &got[i]
 		}
 	}
 
 	if over {
-		if deliveredTested {
+		if oversize != nil {
 			key := kPollCL
 			switch pc.Mode {
 			case "chunked":
@@ -371,7 +393,7 @@ func runPollCase(c *ctx, pc pollCase, limIdx int, st *partStats) {
 			case "under-declared":
 				key = kPollUnder
 			}
-			report(key, fmt.Sprintf("status %d, the %d-byte message was delivered to OnPacket although the limit is %d (declared Content-Length %d, %d body bytes read)", code, got[0].wire, limit, declared, read))
+			report(key, fmt.Sprintf("status %d, the %d-byte message was delivered to OnPacket although the limit is %d (declared Content-Length %d, %d body bytes read)", code, oversize.wire, limit, declared, read))
 			st.Outcomes["over limit: delivered"]++
 			return
 		}
@@ -379,7 +401,7 @@ func runPollCase(c *ctx, pc pollCase, limIdx int, st *partStats) {
 			report(kPollRead, fmt.Sprintf("status %d, not delivered, but %d bytes of the body were read (limit %d)", code, read, limit))
 		}
 		if code >= 200 && code < 300 {
-			report(kPoll2xx, fmt.Sprintf("status %d", code))
+			report(kPoll2xx, fmt.Sprintf("status %d, OnPacket saw %+v", code, got))
 			return
 		}
 		// refused: the session must be closed (OnClose on the server side)
@@ -397,10 +419,11 @@ func runPollCase(c *ctx, pc pollCase, limIdx int, st *partStats) {
 	}
 
 	// within the announced limit: accepted
-	if pc.Real && code == -1 && !deliveredTested {
-		// the client could not even complete the exchange with the loopback server: not a verdict
-		c.harnessErr("polling rig (real net/http): client transport error on a request within the limit: " + pc.String())
-		return
+	if pc.Real && code == -1 && deliveredTested {
+		// The handler has returned (realPost waited for it) and delivered the message; that the client
+		// then failed to read the answer over loopback is the rig's trouble, not a verdict.
+		c.anomaly("polling rig (real net/http): the client got a transport error although the server delivered the message: " + pc.String())
+		code = 200
 	}
 	if code != 200 || !deliveredTested {
 		report(kPollRefused, fmt.Sprintf("status %d, delivered=%v (announced maxPayload %d)", code, deliveredTested, sess.announced))
@@ -430,7 +453,10 @@ func (o onlyReader) Read(p []byte) (int, error) { return o.r.Read(p) }
 func realPost(c *ctx, sess *pollSession, body []byte, declared int64) (code int, ok bool) {
 	handlerDone := make(chan struct{}, 4)
 	ts := httptest.NewServer(http.HandlerFunc(func(w http.ResponseWriter, r *http.Request) {
-		defer func() { handlerDone <- struct{}{} }()
+		// only the request of this case counts (see newPollSession about stray clients)
+		if r.Method == "POST" && r.URL.Query().Get("sid") == sess.sid {
+			defer func() { handlerDone <- struct{}{} }()
+		}
 		sess.srv.ServeHTTP(w, r)
 	}))
 	defer ts.Close()
